@@ -50,8 +50,23 @@ def locals_of(fn):
         if isinstance(n, ast.ExceptHandler) and n.name and \
                 n.name not in names and n.name not in params:
             names.append(n.name)
-    # nested function definitions' own locals are handled when visiting them
-    return names
+    # nested function definitions' own locals are handled when visiting them.
+    # A name that is also the parameter of a nested lambda / def is skipped:
+    # the renamer rewrites Name nodes only, so `lambda node: node.x` would
+    # become `lambda node: node_rn.x` - a NameError the fuzzer introduced
+    # itself (hygiene rule .90 reported exactly that for get_leaf_nodes).
+    nested_params = set()
+    for n in ast.walk(fn):
+        if n is not fn and isinstance(n, (ast.Lambda, ast.FunctionDef,
+                                          ast.AsyncFunctionDef)):
+            a = n.args
+            nested_params |= {x.arg for x in a.posonlyargs + a.args +
+                              a.kwonlyargs}
+            if a.vararg:
+                nested_params.add(a.vararg.arg)
+            if a.kwarg:
+                nested_params.add(a.kwarg.arg)
+    return [n for n in names if n not in nested_params]
 
 
 class Renamer(ast.NodeTransformer):
